@@ -229,6 +229,71 @@ def source_fail_run(ctx):
     shutil.rmtree(base, ignore_errors=True)
 
 
+def same_object_retry(ctx):
+    """a retry loop around one Flow object: the first attempt fails while the checkpoint is being written, the same
+    object is run again; what is then on disk is the checkpoint of an uninterrupted run, and the next run returns it"""
+    import dataflows as DF
+    from dataflows import Flow
+    import contextlib
+    import io
+    rep = ctx.report
+    for shape, fail_at in (([6], (0, 3)), ([3, 4], (1, 1)), ([2, 0, 5], (2, 4))):
+        base = os.path.join(ctx.scratch, 'retry%d' % len(shape))
+        shutil.rmtree(base, ignore_errors=True)
+        flag = {'fail': True}
+
+        def sources():
+            return [[{'id': j, 'name': 'r%d-%d' % (i, j)} for j in range(n)] or [{'id': 0, 'name': 'only'}] for i, n in enumerate(shape)]
+
+        def trim(rows):
+            idx = int(rows.res.name.split('_')[1]) - 1
+            for r in rows:
+                if shape[idx] > 0:
+                    yield r
+
+        def maybe_fail(rows):
+            for i, r in enumerate(rows):
+                if flag['fail'] and rows.res.name == 'res_%d' % (fail_at[0] + 1) and i == fail_at[1]:
+                    raise ValueError('injected')
+                yield r
+        case = {'rows_per_resource': shape, 'first_attempt_fails_at': list(fail_at), 'retry': 'same Flow object'}
+        rep.case('same-object-retry', case, key=['retry', shape])
+        final = os.path.join(base, 'cp', 'stream.ndjson')
+        with contextlib.redirect_stdout(io.StringIO()):
+            ref_dir = os.path.join(base, 'ref')
+            want = Flow(*sources(), trim, DF.checkpoint('cp', checkpoint_path=ref_dir)).results()[0]
+            with open(os.path.join(ref_dir, 'cp', 'stream.ndjson'), 'rb') as f:
+                want_bytes = f.read()
+            flow = Flow(*sources(), trim, maybe_fail, DF.checkpoint('cp', checkpoint_path=base))
+            failed = False
+            try:
+                flow.results()
+            except Exception:  # noqa
+                failed = True
+            if not failed:
+                rep.fail('retry:first-attempt-did-not-fail', case, {})
+                continue
+            if os.path.exists(final):
+                rep.fail('checkpoint-committed-after-failure', case, {})
+            flag['fail'] = False
+            try:
+                got2 = flow.results()[0]
+                got3 = Flow(*sources(), trim, DF.checkpoint('cp', checkpoint_path=base)).results()[0]
+            except Exception as e:  # noqa
+                rep.fail('retry:second-attempt-raises', case, repr(e)[:300])
+                continue
+        if got2 != want:
+            rep.fail('retry:second-attempt-differs', case, {'rows': [len(x) for x in got2]})
+        with open(final, 'rb') as f:
+            have_bytes = f.read()
+        if have_bytes != want_bytes:
+            rep.fail('retry:checkpoint-file-differs-from-an-uninterrupted-run', case,
+                     {'size': len(have_bytes), 'expected_size': len(want_bytes)})
+        if got3 != want:
+            rep.fail('next-run-differs-after-failure', case, {'rows': [len(x) for x in got3]})
+        shutil.rmtree(base, ignore_errors=True)
+
+
 def run(ctx):
     rep = ctx.report
     rep.rule = ('checkpointing pipelines of 1-3 resources x 0-N rows; a real SIGKILL before every file operation of the '
@@ -241,6 +306,7 @@ def run(ctx):
     for idx, shape in enumerate(shapes):
         shape_run(ctx, shape, idx)
     source_fail_run(ctx)
+    same_object_retry(ctx)
 
     def search(disagreements):
         before = len(rep.oracle_failures)
